@@ -17,6 +17,8 @@ import (
 	"time"
 	"unsafe"
 
+	"tunnox-core/internal/cloud/models"
+	"tunnox-core/internal/cloud/stats"
 	"tunnox-core/internal/core/idgen"
 	"tunnox-core/internal/core/storage"
 	"tunnox-core/internal/core/types"
@@ -61,6 +63,56 @@ func (c07Auth) HandleHandshake(conn ControlConnectionInterface, req *packet.Hand
 }
 
 func (c07Auth) GetClientConfig(conn ControlConnectionInterface) (string, error) { return "", nil }
+
+// c07Cloud is a CloudControlAPI double with fault injection at the cloud-control / storage
+// boundary: mode 1 fails every state call, mode 2 every other one, mode 3 follows a seeded
+// pattern. The registry invariants must hold whether or not the notification succeeded.
+type c07Cloud struct {
+	mode    int
+	calls   atomic.Int64
+	pattern uint64
+	run     *vk.Run
+}
+
+func (c *c07Cloud) fault(what string) error {
+	n := c.calls.Add(1)
+	bad := false
+	switch c.mode {
+	case 1:
+		bad = true
+	case 2:
+		bad = n%2 == 1
+	case 3:
+		bad = (c.pattern>>(uint(n)%64))&1 == 1
+	}
+	if bad {
+		c.run.Count("cloud_faults_injected", 1)
+		if what == "disconnect" {
+			c.run.Count("cloud_faults_on_disconnect", 1)
+		}
+		return fmt.Errorf("c07: injected cloud-control storage fault (%s)", what)
+	}
+	return nil
+}
+
+func (c *c07Cloud) GetPortMapping(string) (*models.PortMapping, error) {
+	return nil, fmt.Errorf("c07: no mappings")
+}
+func (c *c07Cloud) UpdatePortMappingStats(string, *stats.TrafficStats) error { return nil }
+func (c *c07Cloud) GetClientPortMappings(int64) ([]*models.PortMapping, error) {
+	return nil, nil
+}
+func (c *c07Cloud) TouchClient(int64)            {}
+func (c *c07Cloud) DisconnectClient(int64) error { return c.fault("disconnect") }
+func (c *c07Cloud) DisconnectClientIfMatch(int64, string, string) (bool, error) {
+	if err := c.fault("disconnect"); err != nil {
+		return false, err
+	}
+	return true, nil
+}
+func (c *c07Cloud) EnsureClientOnline(int64, string, string, string, string, string) error {
+	return c.fault("ensure-online")
+}
 
 type c07Conn struct {
 	slot    int
@@ -133,7 +185,9 @@ var (
 	c07WorldSeq  atomic.Int64
 )
 
-func c07NewWorld(run *vk.Run, nslots, nclients, ctlCap int) *c07World {
+// cloudMode: 0 = no cloud control configured, 1 = every call fails, 2 = every other call fails,
+// 3 = seeded pattern, 4 = healthy double.
+func c07NewWorld(run *vk.Run, nslots, nclients, ctlCap, cloudMode int, pattern uint64) *c07World {
 	vk.Quiet()
 	c07IDMgrOnce.Do(func() {
 		c07IDMgr = idgen.NewIDManager(storage.NewMemoryStorage(context.Background()), context.Background())
@@ -142,6 +196,10 @@ func c07NewWorld(run *vk.Run, nslots, nclients, ctlCap int) *c07World {
 	cfg := &SessionConfig{HeartbeatTimeout: time.Hour, CleanupInterval: time.Hour, MaxConnections: 0, MaxControlConnections: ctlCap}
 	sm := NewSessionManagerWithConfig(c07IDMgr, ctx, cfg)
 	sm.SetAuthHandler(c07Auth{})
+	if cloudMode != 0 {
+		sm.SetCloudControl(&c07Cloud{mode: cloudMode, pattern: pattern, run: run})
+		sm.SetNodeID("node-c07")
+	}
 	w := &c07World{run: run, sm: sm, cancel: cancel, slots: make([]*c07Conn, nslots), all: map[string]*c07Conn{}, prevReg: map[string]bool{}, reported: map[string]bool{}}
 	for i := 0; i < nclients; i++ {
 		w.clients = append(w.clients, int64(1001+i))
@@ -697,17 +755,18 @@ func c07Alphabet(nslots, nclients int, reduced bool) []c07Op {
 }
 
 type c07Prefix struct {
-	name string
-	cap  int
-	ops  []c07Op
+	name  string
+	cap   int
+	cloud int // cloud-control double mode (see c07NewWorld)
+	ops   []c07Op
 }
 
 func c07Prefixes() []c07Prefix {
 	return []c07Prefix{
-		{"three-registered-unauth", 0, []c07Op{{"accept", 0, -1}, {"accept", 1, -1}, {"accept", 2, -1}, {"fail", 0, -1}, {"fail", 1, -1}, {"fail", 2, -1}}},
-		{"A-on-c0,B-on-c1,c2-accepted", 0, []c07Op{{"accept", 0, -1}, {"accept", 1, -1}, {"accept", 2, -1}, {"login", 0, 0}, {"login", 1, 1}}},
-		{"A-on-c0-then-index-taken-by-c1,c2-registered", 0, []c07Op{{"accept", 0, -1}, {"accept", 1, -1}, {"accept", 2, -1}, {"login", 0, 0}, {"fail", 1, -1}, {"auth", 1, 0}, {"fail", 2, -1}}},
-		{"cap2:A-on-c0,B-on-c1,c2-accepted", 2, []c07Op{{"accept", 0, -1}, {"accept", 1, -1}, {"accept", 2, -1}, {"login", 0, 0}, {"login", 1, 1}}},
+		{"three-registered-unauth", 0, 0, []c07Op{{"accept", 0, -1}, {"accept", 1, -1}, {"accept", 2, -1}, {"fail", 0, -1}, {"fail", 1, -1}, {"fail", 2, -1}}},
+		{"A-on-c0,B-on-c1,c2-accepted|cloud-control-failing", 0, 1, []c07Op{{"accept", 0, -1}, {"accept", 1, -1}, {"accept", 2, -1}, {"login", 0, 0}, {"login", 1, 1}}},
+		{"A-on-c0-then-index-taken-by-c1,c2-registered|cloud-control-healthy", 0, 4, []c07Op{{"accept", 0, -1}, {"accept", 1, -1}, {"accept", 2, -1}, {"login", 0, 0}, {"fail", 1, -1}, {"auth", 1, 0}, {"fail", 2, -1}}},
+		{"cap2:A-on-c0,B-on-c1,c2-accepted|cloud-control-failing-every-other-call", 2, 2, []c07Op{{"accept", 0, -1}, {"accept", 1, -1}, {"accept", 2, -1}, {"login", 0, 0}, {"login", 1, 1}}},
 	}
 }
 
@@ -725,13 +784,13 @@ func TestVerifC07RegistryExhaustive(t *testing.T) {
 	depth := run.Pick(3, 4)
 	full := c07Alphabet(3, 2, false)
 	red := c07Alphabet(3, 2, true)
-	run.Rule(fmt.Sprintf("every sequence of enabled operations up to depth %d over the reduced alphabet (%d ops: without tunnel-type logins, disconnect commands and most kick targets) and up to depth %d over the full alphabet, over 3 connection slots and clients A,B from %d prefix states; full alphabet (%d ops): accept, failed handshake, control login as X (real handleHandshake incl. eviction of the previous holder), tunnel-type login as X, UpdateControlConnectionAuth(X), KickOldControlConnection(X,new), age (LastActiveAt into the past), heartbeat, stale sweep, Unregister (tunnel conversion), disconnect command, peer EOF (adapter cleanup); an operation that is disabled in the current state (no effect) prunes its subtree; distinct = prefix + operation sequence; non-trivial = at least one connection left the registry", depth, len(red), depth-1, len(c07Prefixes()), len(full)))
+	run.Rule(fmt.Sprintf("every sequence of enabled operations up to depth %d over the reduced alphabet (%d ops: without tunnel-type logins, disconnect commands and most kick targets) and up to depth %d over the full alphabet, over 3 connection slots and clients A,B from %d prefix states (cloud control: none / every call fails / healthy / every other call fails); full alphabet (%d ops): accept, failed handshake, control login as X (real handleHandshake incl. eviction of the previous holder), tunnel-type login as X, UpdateControlConnectionAuth(X), KickOldControlConnection(X,new), age (LastActiveAt into the past), heartbeat, stale sweep, Unregister (tunnel conversion), disconnect command, peer EOF (adapter cleanup); an operation that is disabled in the current state (no effect) prunes its subtree; distinct = prefix + operation sequence; non-trivial = at least one connection left the registry", depth, len(red), depth-1, len(c07Prefixes()), len(full)))
 	run.Observe("alphabet_full", c07Names(full))
 	samples := 0
 	var seq []c07Op
 	stop := false
 	exec := func(p c07Prefix) (lastEnabled bool) {
-		w := c07NewWorld(run, 3, 2, p.cap)
+		w := c07NewWorld(run, 3, 2, p.cap, p.cloud, 0)
 		defer w.dispose()
 		for _, o := range p.ops {
 			if !w.step(o) {
@@ -796,6 +855,7 @@ func TestVerifC07RegistryExhaustive(t *testing.T) {
 	run.Floor("sweep_removed", 10)
 	run.Floor("evicted_conns_reaped", 10)
 	run.Floor("tunnel_conversions", 10)
+	run.Floor("cloud_faults_on_disconnect", 50)
 }
 
 // ---------------------------------------------------------------------------
@@ -803,7 +863,7 @@ func TestVerifC07RegistryExhaustive(t *testing.T) {
 func TestVerifC07RegistryRandom(t *testing.T) {
 	run := vk.Start(t, "C07", "registry-random")
 	defer run.Finish()
-	run.Rule("seeded random sequences of 30-100 enabled operations over 4 connection slots and clients A,B,C, control-connection cap 0 (none) or 3, drawn from the full registry-level alphabet plus CloseConnection from outside the read loop; invariants after every operation and after the adapter cleanup; distinct = 3-grams of executed operation kinds(+same/other-identity flag)")
+	run.Rule("seeded random sequences of 30-100 enabled operations over 4 connection slots and clients A,B,C, control-connection cap 0 (none) or 3, cloud-control double absent / failing always / alternating / seeded pattern / healthy, drawn from the full registry-level alphabet plus CloseConnection from outside the read loop; invariants after every operation and after the adapter cleanup; distinct = 3-grams of executed operation kinds(+same/other-identity flag)")
 	r := run.Rand("seq")
 	alpha := append(c07Alphabet(4, 3, false), c07Op{"apiclose", 0, -1}, c07Op{"apiclose", 1, -1}, c07Op{"apiclose", 2, -1}, c07Op{"apiclose", 3, -1})
 	nseq := run.Pick(2000, 40000)
@@ -812,7 +872,7 @@ func TestVerifC07RegistryRandom(t *testing.T) {
 		if r.Intn(3) == 0 {
 			capv = 3
 		}
-		w := c07NewWorld(run, 4, 3, capv)
+		w := c07NewWorld(run, 4, 3, capv, r.Intn(5), r.Uint64())
 		n := 30 + r.Intn(71)
 		run.Case("random-sequence", s)
 		var grams []string
@@ -839,6 +899,7 @@ func TestVerifC07RegistryRandom(t *testing.T) {
 	run.Floor("duplicate_login_evicting", 50)
 	run.Floor("sweep_removed", 20)
 	run.Floor("sweep_spared_heartbeated_conn", 3)
+	run.Floor("cloud_faults_on_disconnect", 50)
 	run.Floor("register_at_cap", 5) // eviction of the oldest connection at the control-connection cap
 }
 
@@ -856,7 +917,7 @@ func TestVerifC07RegistryConcurrent(t *testing.T) {
 	if regOnly {
 		rounds = run.Pick(300, 1500)
 	}
-	run.Rule(fmt.Sprintf("%d goroutines x 3 phases x 12 seeded random operations per round over 8 connection slots (one owner each) and clients A,B,C; own-slot operations: accept, login/tunnel-login/failed handshake, UpdateControlConnectionAuth, heartbeat, Unregister, disconnect command, peer EOF; global: KickOldControlConnection, ageing, stale sweep, CloseConnection of any slot, lookups; registry-only mix (no packet handlers) when run under -race: %v; invariants at barriers after adapter cleanup; distinct = round x phase outcomes (registered set shape)", G, regOnly))
+	run.Rule(fmt.Sprintf("%d goroutines x 3 phases x 12 seeded random operations per round over 8 connection slots (one owner each) and clients A,B,C; own-slot operations: accept, login/tunnel-login/failed handshake, UpdateControlConnectionAuth, heartbeat, Unregister, disconnect command, peer EOF; global: KickOldControlConnection, ageing, stale sweep, CloseConnection of any slot, lookups; registry-only mix (no packet handlers) when run under -race: %v; cloud-control double mode = round mod 5 (absent, always failing, alternating, seeded pattern, healthy); invariants at barriers after adapter cleanup; distinct = round x phase outcomes (registered set shape)", G, regOnly))
 	run.Observe("registry_only_mix", regOnly)
 	ownFull := []string{"accept", "accept", "login", "login", "login", "tlogin", "fail", "auth", "hb", "hb", "unreg", "disc", "close"}
 	ownReg := []string{"accept", "accept", "regauth", "regauth", "regauth", "unreg", "close"}
@@ -871,7 +932,7 @@ func TestVerifC07RegistryConcurrent(t *testing.T) {
 		if rd%3 == 2 {
 			capv = 5
 		}
-		w := c07NewWorld(run, G, 3, capv)
+		w := c07NewWorld(run, G, 3, capv, rd%5, uint64(rd)*0x9E3779B97F4A7C15)
 		w.regOnly = regOnly
 		run.Case("concurrent-round", rd)
 		ok := true
@@ -951,6 +1012,7 @@ func TestVerifC07RegistryConcurrent(t *testing.T) {
 	run.Floor("evicted_conns_reaped", 50)
 	run.Floor("kick_calls", 50)
 	run.Floor("sweep_removed", 10)
+	run.Floor("cloud_faults_on_disconnect", 20)
 }
 
 func (w *c07World) indexEntries() int {
